@@ -36,3 +36,9 @@ claim("C03",
   "For every generated document: R1 the marshalled JSON of a normal-form document equals the input; R2 marshal o load is idempotent through the JSON and the YAML writer; R3 the YAML reader and the JSON reader agree. A difference is reported with the JSON pointer of the first lost / invented / changed field. Sampled; (kind, field) population counts are in the evidence.",
   "Trusted: the meta-model tables (transcribed from the specifications), oasdiff/yaml for producing YAML input text, jv.Equal. Documents the library refuses to parse are outside the property (two v2 parser restrictions found that way are described in DESIGN.md and avoided by construction).",
   "DESIGN.md#c03")
+
+claim("C04",
+  "property-based testing with a mutation (metamorphic) oracle: conforming documents (a hand-written base document using every container kind, and docgen documents) x single-rule violations planted at nodes found by a kind-aware walk of the raw document x option sets; the rule x node x option matrix of the base document is enumerated completely, the rest is sampled with rapid",
+  "A conforming document must be accepted under every option set; a document that differs by one violation of a rule the library enforces must be rejected unless an option in the set names exactly that check (and then it must be accepted). 45 rules, every applicable node of the document, 8 (quick) or 64 (thorough) option sets. Violations are identified by rule and location class.",
+  "Trusted: the meta-model (positions -> kinds), the rule table and the option->rule table derived from the statement and the option doc comments. Places not in the statement's list (below operation callbacks, encoding objects) are exercised but not demanded. Five open findings are listed in known_findings.json; eight cells were repaired.",
+  "DESIGN.md#c04")
